@@ -396,7 +396,9 @@ func buildInputs(uniq string, r *rand.Rand, thorough bool) []Input {
 		return InReply{Proto: "http", Err: rp.Err, Status: rp.Status, Body: clipName(string(rp.Body))}
 	}})
 	// cron descriptors that the parser library does not survive
-	for _, cr := range []string{"TZ=UTC", "CRON_TZ=UTC", "TZ=", "TZ=UTC ", "@every", "@every -1s", "@every 0s", "* * * * * * *", "60 * * * * *", "*/0 * * * *", "0-0/0 * * * *", "? ? ? ? ?", "L * * * *", "1,,2 * * * *", "TZ=Nowhere/Land * * * * *"} {
+	for _, cr := range []string{"TZ=UTC", "CRON_TZ=UTC", "TZ=", "TZ=UTC ", "@every", "@every -1s", "@every 0s", "* * * * * * *", "60 * * * * *", "*/0 * * * *", "0-0/0 * * * *", "? ? ? ? ?", "L * * * *", "1,,2 * * * *", "TZ=Nowhere/Land * * * * *",
+		// well-formed expressions that never occur
+		"0 0 30 2 *", "0 0 31 4,6,9,11 *", "0 0 0 31 2 *"} {
 		cr := cr
 		add(Input{Name: "grpc CreateSchedule:cron=" + cr, Send: func(s *Server) InReply {
 			return grpcIn(s.Schedules().CreateSchedule(ctx(), &pb.CreateScheduleRequest{Id: "gcr-" + gid, Cron: cr, PromiseId: "x.{{.timestamp}}", PromiseTimeout: 10}))
